@@ -51,6 +51,7 @@ def programs(rnd, filters, tier):
                 add("{{ (" + e + ")|string }}{{ " + e + "|list }}", tag=f)
                 if subj in ("s", "L") or tier != "quick":
                     add("{% filter " + f + a + " %}t{{ " + subj + " }}u{% endfilter %}", tag="filterblock:" + f)
+                    add("{% set v | " + f + a + " %}t{{ " + subj + " }}u{% endset %}{{ v }}", tag="setblockfilter:" + f)
                 if tier != "quick":
                     add("{% set v = " + e + " %}{{ v }}", tag=f)
                     add("{{ m ~ (" + e + ") }}{{ (" + e + ") ~ m }}", tag=f)
@@ -151,7 +152,8 @@ def run(ck):
         p = pmap[rec["id"]]
         ck.violation({"kind": "scan", "src": p["src"], "mode": p["mode"], "out": rec["text"]},
                      f"unescaped markup reaches the output: {p['src']!r} -> {rec['text']!r:.200}",
-                     {"kind": "scan-leak", "filter": p["tag"], "shape": "filterblock" if p["tag"].startswith("filterblock:") else "expression"})
+                     {"kind": "scan-leak", "filter": p["tag"], "shape": "filterblock" if p["tag"].startswith("filterblock:") else
+                               "setblockfilter" if p["tag"].startswith("setblockfilter:") else "expression"})
     ck.traces += len(rendered)
     ck.evaluations += len(progs)
     ck.extra["scan_programs"] = len(progs)
